@@ -139,17 +139,8 @@ def run(ctx):
     quick = ctx.tier == "quick"
     ctx.build_go()
     ctx.build_emerge()
-    ctx.extract(["fsops"])
-    try:
-        ctx.prove("Emerge.Props.C16")
-        if not quick:
-            ctx.leanchecker("Emerge.Props.C16")
-    except Broken as b:
-        ctx.add_broken(b.what, b.detail)
-        ok, out = ctx.lake(["model"])
-        if not ok:
-            ctx.add_broken("model driver no longer builds", out[-2000:])
-            return ctx.finish(LEVEL, {"evaluations": 0, "distinct_nontrivial": 0, "samples": [], "explanation": "aborted"}, [])
+    if not ctx.prepare(["fsops"], "Emerge.Props.C16", quick):
+        return ctx.finish(LEVEL, {"evaluations": 0, "distinct_nontrivial": 0, "samples": [], "explanation": "aborted"}, [])
     emerge = os.path.join(BUILD, "emerge")
     root = tempfile.mkdtemp(prefix="verif-c16-")
     scs = scenarios(ctx.rng, quick)
